@@ -78,3 +78,28 @@ def dump_json(path, obj):
         json.dump(obj, handle, indent=1, sort_keys=True, default=str)
         handle.write("\n")
     os.replace(tmp, path)
+
+
+_FOREIGN = []
+
+
+def foreign_configurations():
+    """Build, before anything else in this process, parsers and dumpers in configurations the check itself does
+    not use (basic-only, truncated, three expanded digits, an assumed zone) and use each once: class- or
+    module-level state that one configuration leaves behind for another then shows up in the check's own cases.
+    The objects are kept alive for the whole run."""
+    if _FOREIGN:
+        return
+    from metomi.isodatetime.parsers import TimePointParser, DurationParser, TimeRecurrenceParser
+    from metomi.isodatetime.dumpers import TimePointDumper
+    p1 = TimePointParser(allow_only_basic=True)
+    p2 = TimePointParser(num_expanded_year_digits=3, allow_truncated=True, assumed_time_zone=(5, 30))
+    p3 = TimePointParser(allow_only_basic=True, num_expanded_year_digits=0, default_to_unknown_time_zone=True)
+    d3 = TimePointDumper(num_expanded_year_digits=3)
+    _FOREIGN.extend([p1, p2, p3, d3, DurationParser(), TimeRecurrenceParser(p2)])
+    for parser, text in ((p1, "20000229T1200Z"), (p2, "+0002000-02-29T12:00"), (p3, "2000060T00")):
+        try:
+            d3.dump(parser.parse(text), "+XCCYY-DDDThh:mm:ss+hh:mm")
+        except ValueError:
+            pass
+    str(p2.parse("-W-3"))
